@@ -26,7 +26,7 @@ func semA() Sem {
 
 func semB() Sem {
 	return Sem{Pats: []cPattern{{Scheme: "https", Host: "b.example"}, {Scheme: "https", Wild: true, Host: "b.example", Port: anyPort}},
-		MAny: true, HNames: []string{"authorization", "x-b"}, HAuth: true, MaxAge: -1, Expose: []string{"*"}, Status: 200, Pna: "cors"}
+		Meths: []string{"DELETE", "PATCH"}, HNames: []string{"authorization", "x-b"}, HAuth: true, MaxAge: -1, Expose: []string{"*"}, Status: 200, Pna: "cors"}
 }
 
 // plainConfig spells a Sem canonically (no randomisation): used where the same Config value
@@ -152,6 +152,7 @@ type lifeRun struct {
 	t     *tracer
 	suite []reqSpec
 	mws   map[string]*cors.Middleware
+	ab    bool // the segment uses the named configurations A / B only (modes hist, multi, rejtwin): Debug events are emitted
 }
 
 func (lr *lifeRun) observe(id string) {
@@ -167,6 +168,25 @@ func (lr *lifeRun) observe(id string) {
 	fp := fingerprint(m, lr.suite)
 	cfp, isNil := configFingerprint(m.Config())
 	lr.t.emit(map[string]any{"ev": "Observe", "mw": id, "fp": fp, "cfgnil": isNil, "cfgfp": cfp})
+	if lr.ab {
+		// what debug mode IS: a preflight that fails after the origin step is answered with the ok status and the partial
+		// headers. One such preflight per named configuration (A: a.example, B: b.example, status 200 = stored as 0).
+		shown := false
+		for _, o := range []string{"https://a.example", "https://b.example", "https://reused.example"} {
+			w := newRec()
+			// QUERY is allowed by neither A nor B: the preflight fails at the METHOD step (a failure at the header step is
+			// answered as a success with the full list in debug mode and would not go through the failure path)
+			m.Wrap(okHandler).ServeHTTP(w, newReq("OPTIONS", http.Header{hOrigin: {o}, hACRM: {"QUERY"}}))
+			st := w.status
+			if st == 0 {
+				st = 200
+			}
+			if st >= 200 && st < 300 && len(w.final()["Access-Control-Allow-Origin"]) > 0 {
+				shown = true
+			}
+		}
+		lr.t.emit(map[string]any{"ev": "Debug", "mw": id, "shown": shown})
+	}
 }
 
 func (lr *lifeRun) pair(a, b string) {
@@ -194,6 +214,7 @@ func (lr *lifeRun) reset(suite []reqSpec) {
 // resetKeep starts a new segment that uses the SAME named configurations and the same probe suite as the previous one:
 // the monitor keeps its reference observations, so equal abstract states are compared across histories too.
 func (lr *lifeRun) resetKeep(suite []reqSpec) {
+	lr.ab = true
 	if lr.suite == nil {
 		lr.reset(suite)
 		return
